@@ -88,7 +88,7 @@ identifier of the signature's type strings equals a declared name. -/
 theorem matryer_scopes_wellformed_partial (m : MethodOut)
     (hnd : (m.params.map (·.name) ++ m.results.map (·.name)).Nodup)
     (hown : ∀ n ∈ m.params.map (·.name) ++ m.results.map (·.name), n ∉ ["mock", "callInfo", "calls"])
-    (hty : ∀ x ∈ typeIdents m, x ∉ m.params.map (·.name) ++ m.results.map (·.name) ∧ x ∉ ["mock", "callInfo", "calls"])
+    (hty : ∀ x ∈ outerIdents m, x ∉ m.params.map (·.name) ++ m.results.map (·.name) ∧ x ∉ ["mock", "callInfo", "calls"])
     (hexp : ((m.params.map (·.name)).map exportedName).Nodup) :
     ∀ f ∈ matryerFns m, f.wf := by
   intro f hf
@@ -132,10 +132,10 @@ theorem testify_scopes_wellformed_partial (m : MethodOut) (retName : String)
     (hrs : (m.results.map (·.name)).Nodup)
     (hown : ∀ n ∈ (m.params.map (·.name) ++ retName :: resultLocals m.results.length) ++ m.results.map (·.name),
       n ∉ testifyOwn ∧ n ≠ "mock")
-    (hty : ∀ x ∈ typeIdents m,
+    (hty : ∀ x ∈ outerIdents m,
       x ∉ (m.params.map (·.name) ++ retName :: resultLocals m.results.length) ++ m.results.map (·.name) ∧ x ∉ testifyOwn)
     (hargs : (argLocals m.params.length).Nodup ∧
-      ∀ x ∈ argLocals m.params.length, x ∉ testifyOwn ∧ x ≠ "mock" ∧ x ∉ typeIdents m) :
+      ∀ x ∈ argLocals m.params.length, x ∉ testifyOwn ∧ x ≠ "mock" ∧ x ∉ outerIdents m) :
     ∀ f ∈ testifyFns m retName, f.wf := by
   intro f hf
   simp only [testifyFns, List.mem_cons, List.not_mem_nil, or_false] at hf
@@ -146,7 +146,7 @@ theorem testify_scopes_wellformed_partial (m : MethodOut) (retName : String)
     exact (hown x (hu x hxu)).1 (ho x hx)
   have outer : ∀ (own u : List String), (∀ x ∈ own, x ∈ testifyOwn) →
       (∀ y ∈ u, y ∈ (m.params.map (·.name) ++ retName :: resultLocals m.results.length) ++ m.results.map (·.name)) →
-      ∀ x, (x = "mock" ∨ x ∈ typeIdents m) → x ∉ own ∧ x ∉ u := by
+      ∀ x, (x = "mock" ∨ x ∈ outerIdents m) → x ∉ own ∧ x ∉ u := by
     intro own u ho hu x hx
     rcases hx with rfl | hx
     · refine ⟨fun h => ?_, fun h => (hown _ (hu _ h)).2 rfl⟩
